@@ -8,6 +8,7 @@ pub mod fixtures;
 pub mod hist;
 pub mod crashfs;
 pub mod walcodec;
+pub mod aggworld;
 
 pub use rng::Rng;
 
